@@ -84,6 +84,7 @@ class Region(I.UFRegion):
     def sky_within(self, ra, dec, degin=False):
         self.degin.append(degin)
         out = []
+        self.narrowed = getattr(self, 'narrowed', False) or any(getattr(v, 'narrow', False) for v in list(ra) + list(dec))
         for a, d in zip(ra, dec):
             if not isinstance(a, I.Sky) or not isinstance(d, I.Sky):
                 ok = isinstance(a, I.Sky) or isinstance(d, I.Sky) or False
@@ -138,6 +139,7 @@ def h_plane(mim, R, C, negate):
         tag = 'mask_plane[%dx%d,negate=%d]' % (R, C, negate)
         c.oblige(tag + ':same array returned, shape kept', z3.BoolVal(out.shape == (R, C)))
         c.oblige(tag + ':degrees handed to the region', z3.BoolVal(all(reg.degin)))
+        c.oblige(tag + ':pixel-centre coordinates reach the region in double precision (no narrowing cast)', z3.BoolVal(not getattr(reg, 'narrowed', False)))
         plane_claims(c, tag, out, (), R, C, negate)
         return tag
     return h
@@ -398,7 +400,11 @@ def run(rep):
                 rep.count(ob['result'], ob['name'])
                 if ob['result'] == 'sat':
                     bad, cls, detail = oracle_plane(negate=m['negate'])
-                    rep.finding('C10/K-mask_plane/%s' % (cls or ob['name'].split(':')[-1]), dict(kind='plane', negate=m['negate']), detail or ob['name'], reproduced=bad)
+                    kind_ = 'plane'
+                    if not bad:
+                        bad, cls, detail = oracle_fine(negate=m['negate'])
+                        kind_ = 'fine'
+                    rep.finding('C10/K-mask_plane/%s' % (cls or ob['name'].split(':')[-1]), dict(kind=kind_, negate=m['negate']), detail or ob['name'], reproduced=bad)
         rep.sample(dict(kernel='K-mask_plane', case=res[0]['out'], obligations=[(o['name'].split(':')[-1], o['result']) for o in res[0]['obligations']]))
     rep.end_kernel()
     rep.kernel('K-mask_file', functions=[F + ':mask_file', F + ':mask_plane'], bounds='data shapes (2,3), (2,2,3), (3,2,2), (1,2,2,3), (1,1,2,3); negate on/off',
